@@ -167,6 +167,71 @@ func c16GC() c16Case {
 	}}
 }
 
+// c16GCInterleaved: a machine comes up WHILE garbage collection reconciles — between any two of the calls the reconcile
+// makes, the instance is created, its NodeClaim becomes Registered and its Node joins (not Ready yet). At the instant of
+// any Delete the provider must not list the instance.
+func c16GCInterleaved() c16Case {
+	nodeStates := []string{"notready", "absent"}
+	const maxCalls = 8
+	return c16Case{name: "gc-machine-comes-up-during-the-reconcile", n: enum.Size(maxCalls+1, len(nodeStates), 2), run: func(i int64, run *explore.Run, l *ev.Local) {
+		d := enum.Odo(i, maxCalls+1, len(nodeStates), 2)
+		at := d[0] // before the at-th call (0 = before the reconcile starts)
+		w := world.New(world.Options{})
+		w.CP.Catalog[""] = world.BuildCatalog(K1)
+		w.Add(world.NodeClass(), world.NodePool("default"))
+		if d[2] == 1 {
+			// a genuinely orphaned NodeClaim next to it (registered, instance gone, node absent): collecting it stays allowed
+			onc, onode := w.BuildNode(world.NodeSpec{Name: "orphan", Pool: "default", Type: K1[0], Offer: K1[0].Offers[0], Created: world.Epoch.Add(-time.Hour)})
+			w.CP.Instance(onc.Status.ProviderID).Gone = true
+			w.EnvDelete(onode)
+		}
+		comeUp := func() {
+			_, node := w.BuildNode(world.NodeSpec{Name: "fresh", Pool: "default", Type: K1[1], Offer: K1[1].Offers[0], Stage: "registered", NotReady: true, Created: world.Epoch.Add(-time.Minute)})
+			if nodeStates[d[1]] == "absent" {
+				w.EnvDelete(node)
+			}
+		}
+		calls, fired := 0, false
+		hook := func(c *world.Call) error {
+			calls++
+			if !fired && calls == at {
+				fired = true
+				comeUp()
+			}
+			return nil
+		}
+		if at == 0 {
+			fired = true
+			comeUp()
+		}
+		w.Client.Hook, w.CP.Hook = hook, hook
+		var bad []string
+		w.Client.After = func(c *world.Call) {
+			if c.Verb == "delete" && c.Kind == "NodeClaim" && c.Name == "nc-fresh" {
+				if nc := w.GetNodeClaim("nc-fresh"); nc != nil {
+					if inst := w.CP.Instance(nc.Status.ProviderID); inst != nil && !inst.Gone {
+						bad = append(bad, "Delete of NodeClaim nc-fresh requested while the provider lists its instance "+nc.Status.ProviderID)
+					}
+				}
+			}
+		}
+		ctrl := garbagecollection.NewController(w.Clock, w.Client, w.CP)
+		_, _ = ctrl.Reconcile(w.Ctx)
+		l.Eval()
+		desc := fmt.Sprintf("gc: the machine of NodeClaim nc-fresh comes up (instance created, NodeClaim Registered, Node %s) before call #%d of the reconcile (%d calls made), orphan present=%v", nodeStates[d[1]], at, calls, d[2] == 1)
+		for _, b := range bad {
+			l.Violation("gc: deleted although instance listed / node Ready / not registered", b+"  ["+desc+"]", map[string]any{"calls": callStrings(w)})
+		}
+		l.Outcome(fmt.Sprintf("gc(interleaved) fired=%v deleted-fresh=%v", fired, len(bad) > 0))
+		if fired && at > 0 {
+			l.Nontrivial(desc)
+		}
+		if i == 5 {
+			l.Sample(map[string]any{"case": desc, "calls": callStrings(w)})
+		}
+	}}
+}
+
 func c16Liveness() c16Case {
 	kinds := []string{"launch-unknown", "launched-not-registered", "registered"}
 	base := []time.Duration{5 * time.Minute, 15 * time.Minute}
@@ -387,8 +452,8 @@ func init() {
 		if r.Tier == "thorough" {
 			bound, maxN = 3, 10
 		}
-		cases := []c16Case{c16Expiration(), c16GC(), c16Liveness(), c16Repair(maxN), c16RepairTwoPolicies()}
-		r.Rule = fmt.Sprintf("four drivers (expiration, garbage collection, liveness via the lifecycle controller, node repair) over full state x clock-offset products (offsets -1s/0/+1s around each threshold; repair pools of 1..%d nodes with every unhealthy count, the other unhealthy nodes unhealthy equally long or only recently; a provider with two repair policies of different tolerations and a node matching none / one / both, each condition absent / healthy / unhealthy for its own toleration -5m/-1s/0/+1s); "+
+		cases := []c16Case{c16Expiration(), c16GC(), c16GCInterleaved(), c16Liveness(), c16Repair(maxN), c16RepairTwoPolicies()}
+		r.Rule = fmt.Sprintf("four drivers (expiration, garbage collection, liveness via the lifecycle controller, node repair) over full state x clock-offset products (offsets -1s/0/+1s around each threshold; repair pools of 1..%d nodes with every unhealthy count, the other unhealthy nodes unhealthy equally long or only recently; garbage collection with a machine coming up between any two calls of the reconcile; a provider with two repair policies of different tolerations and a node matching none / one / both, each condition absent / healthy / unhealthy for its own toleration -5m/-1s/0/+1s); "+
 			"each state is reconciled once fault-free and once for every way of failing <=%d of its API / provider calls (transient 500, conflict on optimistic-lock patches, provider error). A Delete of the NodeClaim must be justified by the documented trigger computed from the scenario parameters. "+
 			"non-trivial = distinct (state, fault set) with a delete or an injected fault", maxN, bound)
 		r.Assumptions = []string{"duplicate Nodes for one NodeClaim are enumerated but a delete there is not judged (the code documents it as an invalid state)", "garbage collection is driven with one NodeClaim so that its client-go fan-out has a single worker"}
